@@ -43,14 +43,14 @@ CFG = dict(
     imports=["Run.RunC01", "Run.RunC03", "Run.RunC04"],
     rule="40 (thorough 260) structured series (lengths 0, 1, 2, 3 always, then 1..20; dyadic values; 9 null patterns; uniform / "
          "monotone / constant / walk) x windows {1, 2, 3, len, len+1, len+2, one random inside} x min_periods {omitted, 0, 1, "
-         "random inside, w} x all 37 rolling entry points (null-aware and plain moments, extrema, arg-extrema, rank with random "
+         "random inside, w} x all 37 registry entry points + ts_vregx_all (audit block: triples, equal / shorter / longer second series, min_periods above w, huge windows) (null-aware and plain moments, extrema, arg-extrema, rank with random "
          "pct/rev, z-score, min-max norm, trend and two-series regressions, cov, corr, fdiff, vfdiff) x backends Vec (returned / "
          "caller buffer), rotated VecDeque (returned = iterator body / caller buffer), reversed ndarray view, Arc<VecDeque>, "
          "Option<f64> elements with Option<f64> output (rotating subsets so that every (function, backend) pair occurs); compared: "
          "no panic, output length, and the null / non-null pattern against the model run (positions whose window is singular in "
          "exact arithmetic are skipped, DESIGN 5.6); nt=0 marks empty input",
     theorem_hint="Props/C05.v",
-    level_text="Proof (Props/C05.v, 68 obligations): (i) every add-emit-remove rolling feature returns exactly one output per "
+    level_text="Proof (Props/C05.v, 91 obligations; audit matrix in notes/C05.md): (i) every add-emit-remove rolling feature returns exactly one output per "
                "input through both driver bodies, for every window >= 1, and an empty result on empty input, never a panic or an "
                "unwritten slot (generic, any carrier); the index-form entry points (ts_vmin/vmax/vargmin/vargmax/vrank, "
                "ts_vminmaxnorm, ts_vregx_resid_*) return the empty result on the empty series for EVERY window, carrier and null "
@@ -76,10 +76,22 @@ CFG = dict(
                "standard library's FloatAxioms.{eqb,ltb,leb}_spec; ts_vrank returns one output per input without panic for EVERY "
                "input AND output carrier with no law and no premise (C05_rank_one_output_per_input_any_carrier); ts_fdiff (null-free input: never null), ts_vfdiff (count < mp'); the plain families ts_sum..ts_kurt, ts_ewm, "
                "ts_wma on null-free input (same masks, count = window length). Derived from the closed forms of "
-               "C01/C03/C04 (Proofs/Mask.v, Mask2.v, Mask3.v, Mask4.v). Not covered by a theorem (correspondence only): the null mask of "
+               "C01/C03/C04 (Proofs/Mask.v, Mask2.v, Mask3.v, Mask4.v). AUDIT (Proofs/Audit05.v, Props/C05.v (8), 23 theorems): window 0 for all 38 entry "
+               "points (empty result iff the first series is empty, else the driver's assertion; fdiff / vfdiff through the iterator body: "
+               "`window - 1` underflow even on the empty series); HUGE WINDOWS: for every w1, w2 > len and explicit min_periods the two calls "
+               "are equal as outcomes, at every carrier, both bodies, for the 6 moments, wma, z-score, 5 trend regressions, cov / corr / regx "
+               "alpha / beta / all, min-max norm, the 3 residual statistics (a run over states whose counter never exceeds the length cannot "
+               "tell the two min_periods gates apart) and, for every w >= len and any min_periods, the extrema / rank family — this is the "
+               "equivalence behind running the code at w = 2^40 .. usize::MAX and the model at w = len + 1; witnesses that an omitted "
+               "min_periods and ewm do depend on w; two-series functions on series of UNEQUAL length: first failing check, masks on the "
+               "common prefix for every accepted pair of lengths, and the refuted clause that the iterator body returns fewer outputs than "
+               "the first series has elements when the second is shorter; null below min_periods at EVERY carrier with no order law for "
+               "ts_vmin / ts_vmax (Option<f64> with Some(NaN) included), ts_vargmin / ts_vargmax (self-equal elements), ts_vminmaxnorm, "
+               "ts_vfdiff; min_periods above the window = the window for the 17 remaining clamping entry points; outcome shape (complete "
+               "result or the window assertion, never a closure panic) of every one-series entry point at every carrier. Not covered by a theorem (correspondence only): the null mask of "
                "ts_vrank when the rank ARITHMETIC is binary64 too (that 1.0-steps, 0.5*(n_repeat-1) and the division by n never "
                "produce NaN needs the arithmetic FloatAxioms, not used here; length / no panic IS proved there), series of unequal length in the two-series functions, a null order d in "
-               "fdiff, min-max norm without the sentinel bound. Tied to the code by a mask-only differential run of all 37 entry "
+               "fdiff, min-max norm without the sentinel bound. Tied to the code by a mask-only differential run of all 38 entry "
                "points on every backend incl. empty and len < w input, and statically (translator, Proofs/SrcTablesRoll.v, re-checked on "
                "every run): the shape of the min_periods computation of all 38 `fn ts_*` (clamp-to-length first?, `.min(window)`?, "
                "`.max(k)`) is re-extracted from the Rust source text and proved equal to what each model function does, for every window, "
